@@ -117,15 +117,15 @@ namespace LK.Cfg
 def exCfg : Cfg :=
   { name := some "p", version := some "1", inputs := [{ name := "q", types := some ["ItemList", "int"] }, { name := "n", types := none }],
     components := [("scorer", { code := "m:S", config := some "{}", inputs := [("items", "q"), ("n", "n")] })],
-    aliases := [("a", "scorer"), ("b", "scorer")], default := some "scorer", literals := [] }
+    aliases := [("a", "scorer"), ("b", "scorer")], default := some "scorer", literals := [("l1", "json", "1"), ("l2", "json", "2")] }
 example : WFcfg exCfg := by
-  refine ⟨by decide, ?_, ?_⟩
+  refine ⟨by decide, ?_, ?_, by decide⟩
   · intro nc h; simp [exCfg] at h; subst h; decide
   · intro i h ts hts; simp [exCfg] at h; rcases h with rfl | rfl
     · simp at hts; subst hts; decide
     · simp at hts
 example : buildCfg .repaired (fromCfg .repaired exCfg) = exCfg := C13_Config_roundtrip exCfg (by
-  refine ⟨by decide, ?_, ?_⟩
+  refine ⟨by decide, ?_, ?_, by decide⟩
   · intro nc h; simp [exCfg] at h; subst h; decide
   · intro i h ts hts; simp [exCfg] at h; rcases h with rfl | rfl
     · simp at hts; subst hts; decide
